@@ -93,6 +93,40 @@ def writer_table(ck, repo, sv: FuncInfo, setup=None):
     return table, order, kinds, where
 
 
+def asserts_missing(cond, taken):
+    """True: the path decision says some stored value is missing (NaN); False: it says the data are complete; None: unrelated."""
+    neg = False
+    while isinstance(cond, tuple) and cond and cond[0] == "not":
+        cond, neg = cond[1], not neg
+    if neg:
+        taken = not taken
+    if not (isinstance(cond, tuple) and cond):
+        return None
+    op = cond[0]
+    if op == "isna":
+        return bool(taken)
+    t = full_text(cond)
+    if "isna(" not in t and "notna(" not in t:
+        return None
+    if op in ("any", "all") and len(cond) == 2:
+        if "notna(" in t:
+            return (not taken) if op == "all" else None
+        return bool(taken) if op == "any" else None
+    if op in ("eq", "ne", "gt", "ge", "lt", "le") and len(cond) == 3:
+        from ..poly import Rat
+        l, r = cond[1], cond[2]
+        if isinstance(l, Rat) and isinstance(r, Rat):
+            if r.is_zero() or l.is_zero():
+                if l.is_zero():
+                    op = {"gt": "lt", "lt": "gt", "ge": "le", "le": "ge"}.get(op, op)
+                # m >= 0 always (a mean / count of missing values); 'complete' means m == 0
+                complete_if_taken = {"eq": True, "le": True, "ne": False, "gt": False}.get(op)
+                if complete_if_taken is None:
+                    return None
+                return not (taken == complete_if_taken)
+    return None
+
+
 def check_table_pair(ck, repo, cls_name, save_name, load_name, series_fields, scalar_fields, unit_note, load_setups):
     C = repo.find_class(cls_name)
     sv, ld = C.methods.get(save_name), C.methods.get(load_name)
@@ -164,6 +198,17 @@ def check_table_pair(ck, repo, cls_name, save_name, load_name, series_fields, sc
     for fld in series_fields + scalar_fields:
         ck.ob("W2", ld.qualname, "persisted field %s is restored" % fld, where_r, bool(fields.get(fld)),
               "the loader does not rebuild this field from the frame")
+    # with nothing missing in the file, nothing may be missing in the object (a presence test of the wrong polarity drops a field)
+    complete = [o for _, o in results if not any(asserts_missing(c, d) for c, d in o.trace)]
+    ck.ob("W2", ld.qualname, "the loader has a path for a file in which no value is missing", where_r, bool(complete))
+    for o in complete:
+        for fld in series_fields + scalar_fields:
+            x = o.value.fields.get(fld)
+            ok = x is not None and x is not NONE and not isinstance(x, NoneV) and bool(reader_refs(x) or not isinstance(x, (ListV, TupV)))
+            if isinstance(x, ListV) and x.kind == "rep" and (x.elem is NONE or isinstance(x.elem, NoneV)):
+                ok = False
+            ck.ob("W2", ld.qualname, "with complete data the field %s is restored" % fld, where_r, ok,
+                  "every value of the file is present on this path, yet the loader leaves the field empty", found=repr(x)[:120])
     check_recombination(ck, ld, fields)
     return w, order, fields, results
 
